@@ -91,10 +91,15 @@ def step_event(act, filt, row):
     exp = row["ekf"] if act == "ekf" else row["kf"]
     ev = {"act": act, "inst": I, "y": row["y"], "P": row["P"], "Q": row["Q"], "exp": exp}
     try:
+        # a filter constructed with covariances gets Q / R per call only where they differ from its own: the
+        # covariances "in effect" at a step must not depend on what earlier calls were given
+        qc, rc = getattr(filt, "_verif_ctor", (None, None))
+        Qa = None if (qc is not None and row["Q"] == qc) else Q
+        Ra = None if (rc is not None and I["R"] == rc) else R
         if act == "ekf":
-            xo, Po = filt(x, y, u, P, Q, R)
+            xo, Po = filt(x, y, u, P, Qa, Ra)
         else:
-            xo, Po = filt(x, y, u, P, Q, R, k=I["nk"] - I["n"])
+            xo, Po = filt(x, y, u, P, Qa, Ra, k=I["nk"] - I["n"])
     except Exception as ex:  # a filter that raises on a valid instance is judged by the trace spec
         return {"act": "raise", "filter": act, "inst": I, "y": row["y"], "msg": repr(ex)[:200]}
     s = data_scale(row)
@@ -116,7 +121,15 @@ def run_steps(rows, what, act):
     that a failure of one filter cannot mask the other (a verdict names the first failing event of a trace)."""
     pp = pypose()
     model = make_model(rows[0]["inst"])
-    filt = pp.module.EKF(model) if act == "ekf" else pp.module.UKF(model)
+    import torch
+    T = lambda a: torch.tensor(a, dtype=torch.float64)
+    # the constructor covariances are those of the LAST step of the run: earlier steps override them per call,
+    # steps that agree with them omit the argument
+    qc, rc = rows[-1]["Q"], rows[-1]["inst"]["R"]
+    cls = pp.module.EKF if act == "ekf" else pp.module.UKF
+    filt = cls(model, Q=T(qc), R=T(rc)) if len(rows) > 1 else cls(model)
+    if len(rows) > 1:
+        object.__setattr__(filt, "_verif_ctor", (qc, rc))
     ev = [step_event(act, filt, row) for row in rows]
     return {"cfg": {"kind": "steps", "filter": act}, "ev": ev, "what": what}
 
